@@ -11,7 +11,7 @@ import (
 )
 
 var c07Floor = []string{"cte.1", "cte.chain2", "cte.chain3", "cte.twice.join", "cte.twice.union", "cte.twice.insub", "cte.selector", "derived", "derived.where",
-	"subq.nested", "subq.root", "subq.in", "subq.agg", "exists", "exists.outer", "subq.root-correlated", "derived.join", "subq.with", "agg.stages", "exists.dual", "inner.agg", "inner.order", "inner.filter", "cte.mixedcase", "exists.outer.marker", "exists.sparse", "subq.in.null-left", "exists.shadow", "exists.outer.marker-is", "cte.named-like-its-table", "cte.nested-with", "cte.nested-with.twice", "cte.union-chain3", "subq.in.qualified-item", "subq.notin", "exists.naming.table-qualified", "exists.naming.alias", "exists.naming.alias-unqualified", "cte.chain-named-like-tables", "exists.shadow.aliased", "exists.outer.alias-path", "exists.outer.table-qualified", "derived.order-ties", "exists.shadow.ragged", "exists.outer.alias-bare-nested"}
+	"subq.nested", "subq.root", "subq.in", "subq.agg", "exists", "exists.outer", "subq.root-correlated", "derived.join", "subq.with", "agg.stages", "exists.dual", "inner.agg", "inner.order", "inner.filter", "cte.mixedcase", "exists.outer.marker", "exists.sparse", "subq.in.null-left", "exists.shadow", "exists.outer.marker-is", "cte.named-like-its-table", "cte.nested-with", "cte.nested-with.twice", "cte.union-chain3", "subq.in.qualified-item", "subq.notin", "exists.naming.table-qualified", "exists.naming.alias", "exists.naming.alias-unqualified", "cte.chain-named-like-tables", "exists.shadow.aliased", "exists.outer.alias-path", "exists.outer.table-qualified", "derived.order-ties", "exists.shadow.ragged", "exists.outer.alias-bare-nested", "subq.grouped-having-alias"}
 
 func init() {
 	fw.Register(&fw.Prop{
@@ -583,6 +583,14 @@ func c07Run(c *fw.Case) {
 			sub = "SELECT e, f FROM arr"
 			if c.Chance(0.7) {
 				sub += fmt.Sprintf(" WHERE e %s %d", gen.Pick(c.R, []string{">", "<", "=", "!=", ">="}), c.Intn(7))
+			}
+			if c.Chance(0.25) {
+				// a grouped subquery whose HAVING names an aggregate by its alias - an alias that is also the column it reads
+				sub = fmt.Sprintf("SELECT f, SUM(e) AS e, COUNT(*) AS c FROM arr GROUP BY f HAVING e %s %d", gen.Pick(c.R, []string{">", ">=", "<", "!="}), c.Intn(9))
+				if c.Chance(0.4) {
+					sub += " AND c >= 1"
+				}
+				feats = append(feats, "subq.grouped-having-alias")
 			}
 			standalone = sub
 		case "subq.agg":
